@@ -70,7 +70,15 @@ func (p *Prog) InlineHelpers(noInline map[string]bool) (inlined []string, remove
 							continue
 						}
 						g := c.Call.StaticCallee()
-						if g == nil || g == f || !p.helperEligible(g) || noInline[p.Key(g)] {
+						if g == nil || g == f {
+							continue
+						}
+						if mc, isClosure := c.Call.Value.(*ssa.MakeClosure); isClosure {
+							// a closure created in f and called in f (typically after the helper it was handed to was inlined)
+							if mc.Parent() != f || g.Parent() == nil || !p.InModule(g) || g.Blocks == nil || noInline[p.Key(g)] {
+								continue
+							}
+						} else if !p.helperEligible(g) || noInline[p.Key(g)] {
 							continue
 						}
 						if p.PkgOf(g) != p.PkgOf(f) {
